@@ -31,7 +31,7 @@ type delivSigma struct {
 	D int  // dispatches this iteration
 	I int  // invocations (in dispatch fn)
 	R byte // retired: n/y
-	G byte // reflective guard miss seen: n/y
+	G byte // '0'+bits: reflective guard facts (1 Kind!=Func, 2 NumIn!=1, 4 NumIn!=2)
 	A byte // any registration retired during this publish: n/y
 	M byte // retirement region (registry write under lock after loop) seen: n/y
 	X byte // inside dispatch function frame: n/y
@@ -46,7 +46,7 @@ func parseDeliv(x string) delivSigma {
 }
 
 func freshIter(prev delivSigma) delivSigma {
-	return delivSigma{F: 'u', P: 'u', C: 'n', O: 'u', R: 'n', G: 'n', A: prev.A, M: prev.M, X: 'n'}
+	return delivSigma{F: 'u', P: 'u', C: 'n', O: 'u', R: 'n', G: '0', A: prev.A, M: prev.M, X: 'n'}
 }
 
 type deliveryRule struct {
@@ -71,13 +71,13 @@ func (r *deliveryRule) Inline(fn *ssa.Function) bool {
 }
 
 func (r *deliveryRule) PredOK(key string) bool {
-	// track only predicates on registration fields
+	// track predicates on registration fields and on results of inlined helpers
 	for _, f := range []string{r.R.RegOnce, r.R.RegAsync, r.R.RegFilter, r.R.RegSeq} {
 		if mentionsField(key, f) {
 			return true
 		}
 	}
-	return false
+	return strings.HasPrefix(key, "v:")
 }
 
 func (r *deliveryRule) inLoop(fc *FrameCtx, blk *ssa.BasicBlock) bool {
@@ -156,7 +156,7 @@ func (r *deliveryRule) OnLeave(e *Engine, st *State, fc *FrameCtx, recovered boo
 	if fc.fn == r.R.DispatchFn {
 		s := parseDeliv(st.Sigma)
 		s.X = 'n'
-		if s.I == 0 && s.G != 'y' && !st.Unwinding() {
+		if s.I == 0 && !excused(s.G) && !st.Unwinding() {
 			e.Report(st, fc.fn.Pos(), "dispatch-fn/invokes-handler", "the dispatch function returns without having invoked the handler (and without the reflective kind/arity guard having failed)")
 		}
 		st.Sigma = s.String()
@@ -258,7 +258,7 @@ func (r *deliveryRule) OnInstr(e *Engine, st *State, fc *FrameCtx, in ssa.Instru
 		}
 	}
 	// registry write after the loop = retirement region
-	if mu, ok := in.(*ssa.MapUpdate); ok && fc.fn == r.R.PublishFn && !r.loops.body[r.header][in.Block()] {
+	if mu, ok := in.(*ssa.MapUpdate); ok && !fc.InGoroutine() && st.RootBlock() != nil && !r.loops.body[r.header][st.RootBlock()] {
 		if tn, fld, _, ok := fieldLoad(mu.Map); ok && r.R.ShardT != nil && tn == r.R.ShardT.Obj().Name() && fld == r.R.ShardMap {
 			s.M = 'y'
 			r.sawRegistryWriteAfterLoop = true
@@ -394,15 +394,43 @@ func (r *deliveryRule) OnBranch(e *Engine, st *State, fc *FrameCtx, in *ssa.If, 
 	}
 	// reflective guard: a branch on Kind()/NumIn() of the handler type that avoids the call
 	if s.X == 'y' {
-		if refersToHandlerType(r, cond) {
-			// the latest kind/arity guard decides: its refusing arm excuses a missing call
-			if !val {
-				s.G = 'y'
-			} else {
-				s.G = 'n'
+		// reflective guard facts: Kind() != Func, NumIn() != 1, NumIn() != 2 (established by
+		// the branch outcomes, whatever the polarity the source uses)
+		if bo, ok := cond.(*ssa.BinOp); ok && (bo.Op == token.EQL || bo.Op == token.NEQ) && refersToHandlerType(r, bo.X) {
+			if k, ok := bo.Y.(*ssa.Const); ok && k.Value != nil {
+				equal := val == (bo.Op == token.EQL)
+				if call, ok := stripConv(bo.X).(*ssa.Call); ok && call.Common().IsInvoke() {
+					bits := s.G - '0'
+					switch call.Common().Method.Name() {
+					case "Kind":
+						if k.Int64() == 19 { // reflect.Func
+							if equal {
+								bits &^= 1
+							} else {
+								bits |= 1
+							}
+						}
+					case "NumIn":
+						if k.Int64() == 1 && !equal {
+							bits |= 2
+						}
+						if k.Int64() == 2 && !equal {
+							bits |= 4
+						}
+					}
+					s.G = '0' + bits
+				}
 			}
 		}
 	}
+}
+
+// excused: the handler type was found not to be a function, or a function with neither
+// one nor two parameters — the only handler values the reflective fallback cannot call
+// (Subscribe's typing rules them out).
+func excused(g byte) bool {
+	bits := g - '0'
+	return bits&1 != 0 || bits&6 == 6
 }
 
 func refersToHandlerType(r *deliveryRule, v ssa.Value) bool {
@@ -479,10 +507,10 @@ func (r *deliveryRule) OnExit(e *Engine, st *State, kind ExitKind) {
 	s := parseDeliv(st.Sigma)
 	switch kind {
 	case ExitGoroutine:
-		if s.C == 'w' && s.I == 0 && s.G != 'y' {
+		if s.C == 'w' && s.I == 0 && !excused(s.G) {
 			e.Report(st, token.NoPos, "PublishContext/async-goroutine/claim-wasted", "an async once handler was claimed but its goroutine exits without invoking it")
 		}
-		if s.I == 0 && s.P != 'd' && s.G != 'y' && s.C != 'w' {
+		if s.I == 0 && s.P != 'd' && !excused(s.G) && s.C != 'w' {
 			e.Report(st, token.NoPos, "PublishContext/async-goroutine/silent-skip", "the async goroutine exits without invoking the handler although the context was not found done")
 		}
 	case ExitPanic:
